@@ -23,6 +23,18 @@ CLAIMS = {
         design_ref="5/C02",
         note=TRUST + "; table types LALR/LALR_PAGER; partial-parse conservativity is decided by oracle+correspondence only (no theorem yet)",
         technique="Lean 4 proof over executable model + verified table certificate + differential correspondence"),
+    "C18": dict(
+        category="proof",
+        text=("Theorems C18_existing_preserved / C18_appends_exactly_missing / C18_appended_fresh / C18_no_duplicates / "
+              "C18_idempotent / C18_force_ignores_existing (+ settings and edge-case theorems) over Regen.run, the Lean model of "
+              "generate_parser_actions: universal over all existing item lists (= all edit histories), all wish lists and both code "
+              "variants; the full statement C18_statement is proved for the variant /repo now contains (C18_repo, after the F17 fix "
+              "commit) and refuted for the code as it was (C18_statement_asIs_false). Tie A: the real process_grammar is run on "
+              "randomly edited actions files (delete/rewrite/insert items), item by item token-for-token, twice, and diffed with the "
+              "model; oracle: the property text on the real before/after item lists."),
+        design_ref="5/C18",
+        note=TRUST + "; syn/quote/prettyplease are opaque (items are token strings); non-doc comments are documented as not preserved",
+        technique="Lean 4 proof over executable model + differential correspondence on edit histories"),
 }
 
 REASONS_PENDING = "check not built yet in this round (planned, see DESIGN.md section 5); not a judgement that the technique cannot apply"
